@@ -687,3 +687,63 @@ mod tests {
         ));
     }
 }
+
+/// Verification wrapper for [`prune_non_relay_paths`] (property C23), compiled only with
+/// `--cfg iroh_verif`. Adds no behaviour: builds the crate-private path map from a plain
+/// description, runs the real pruning function and reports what survived.
+#[cfg(iroh_verif)]
+#[allow(missing_docs, unreachable_pub, missing_debug_implementations)]
+pub(crate) mod verif_c23 {
+    use std::time::Duration;
+
+    use super::*;
+
+    /// Path status as described by the harness; `Inactive(n)` = closed `n` microseconds
+    /// after a base instant common to the whole call.
+    #[derive(Debug, Clone, Copy, PartialEq, Eq, PartialOrd, Ord)]
+    pub enum Status {
+        Open,
+        Inactive(u64),
+        Unusable,
+        Unknown,
+    }
+
+    /// Runs `prune_non_relay_paths` on the given path set and returns the surviving
+    /// paths (sorted by address) with their status read back from the map.
+    pub fn prune(paths: &[(transports::Addr, Status)]) -> Vec<(transports::Addr, Status)> {
+        let base = Instant::now();
+        let mut map: FxHashMap<transports::Addr, PathState> = FxHashMap::default();
+        for (addr, status) in paths {
+            let status = match status {
+                Status::Open => PathStatus::Open,
+                Status::Inactive(us) => PathStatus::Inactive(base + Duration::from_micros(*us)),
+                Status::Unusable => PathStatus::Unusable,
+                Status::Unknown => PathStatus::Unknown,
+            };
+            map.insert(
+                addr.clone(),
+                PathState {
+                    sources: HashMap::new(),
+                    status,
+                },
+            );
+        }
+        prune_non_relay_paths(&mut map);
+        let mut out: Vec<_> = map
+            .into_iter()
+            .map(|(addr, state)| {
+                let status = match state.status {
+                    PathStatus::Open => Status::Open,
+                    PathStatus::Inactive(t) => {
+                        Status::Inactive(t.duration_since(base).as_micros() as u64)
+                    }
+                    PathStatus::Unusable => Status::Unusable,
+                    PathStatus::Unknown => Status::Unknown,
+                };
+                (addr, status)
+            })
+            .collect();
+        out.sort();
+        out
+    }
+}
